@@ -14,3 +14,4 @@ for p in "$@"; do
   VERIF_ROOT=/tmp/mutest_root /verif/check "$p" 2>&1 | grep -E "VIOLATION|key:|quick:|HARNESS|KNOWN" | cut -c1-260 | head -12
 done
 git -C /repo checkout -- .
+(cd /verif/sim && CARGO_NET_OFFLINE=true cargo build --release --offline >/dev/null 2>&1)
